@@ -23,14 +23,14 @@ CHECKS = {
      "Seeded operation/read histories (8-24 steps) plus fixed 3/4-step schemas (materialise view X, mutate via Y, read Z, mutate again; for all X, Y, Z) on live PosePath3D/PoseTrajectory3D objects built either from pose matrices or from positions+quaternions. After every step every view of every object (each read first on its own deep copy, plus one copy read in a seeded order) is compared with the other views, with a longdouble SE(3) reference model applying the documented geometric effect, with derived quantities recomputed from the model, and with evo's own check(). Sampling, not proof; no fault dimension (DESIGN 4.4 says why).",
      "4.4"),
    note="Trusted: the reference model (closed-form longdouble group operations), tolerances 1e-9 relative, copy.deepcopy as a state-preserving probe. transform() is fed SE(3) only; selection ops are checked as order-preserving subsequences; empty trajectories are only asked for their count.",
-   technique="deterministic simulation degenerate case: seeded history search over an object pool against an executable reference model, with replay and minimisation"),
+   technique="deterministic simulation (history search, no fault dimension): seeded operation/read histories on live objects vs. an executable reference model, with replay and minimisation"),
  "C16": dict(
    engine="E3-object-pool",
    level=("exploration",
      "Same machine as C08 with a deriver/computation-heavy mix: derive by deepcopy / associate / split_* / merge / DataFrame, TUM, KITTI round trips, mutate either the derived object or the parent by every mutator, and run APE/RPE, ape()/rpe(), pair selection, time matching, Umeyama, writers, result merging and plots with pool objects as arguments. After every step every object that was not the receiver must be bit-for-bit equal to its previous probe and every object must still equal its own model. Sampling, not proof.",
      "4.4"),
    note="Trusted: as C08. ape()/rpe() only in their argument-preserving configurations (with alignment/projection options they process their arguments in place by design); split_* returning [self] and merge_results of one result are recorded as aliases.",
-   technique="deterministic simulation degenerate case: seeded derive-mutate-inspect histories over a pool of aliased objects, bitwise snapshots + per-object reference models"),
+   technique="deterministic simulation (history search, no fault dimension): seeded derive-mutate-inspect histories over a pool of aliased objects, bitwise snapshots + per-object reference models"),
  "C17": dict(
    engine="E2-sandbox-io",
    level=("exploration",
